@@ -157,7 +157,7 @@ def pair_task(k, op, order_vars=None, fixed=None):
     t1 = time.time()
     encoded = sorted(vm.encoded)
     kinds = exc_kinds(fr)
-    d = Decider(timeout_ms=600000)
+    d = Decider(timeout_ms=1800000)
     f2 = [fixed['f%d' % i] if 'f%d' % i in fixed else var('f%d' % i) for i in range(nb)]
     g2 = [fixed['g%d' % i] if 'g%d' % i in fixed else var('g%d' % i) for i in range(nb)]
     eq_tab = b_and(*[b_iff(x, y) for x, y in zip(f2, g2)])
@@ -234,7 +234,7 @@ def unary_task(k, what, order_vars=None):
     t1 = time.time()
     encoded = sorted(vm.encoded)
     kinds = exc_kinds(fr)
-    d = Decider(timeout_ms=600000)
+    d = Decider(timeout_ms=1800000)
     f2 = [var('f%d' % i) for i in range(nb)]
     want = []
     for w in wantspec:
